@@ -77,8 +77,9 @@ def run(ctx):
     except Unsupported as e:
         why = 'budget `%s` not recognisable: %s' % (U(budget)[:80], e)
     ctx.check('R-SUFFIX/budget', f, 'hamming budget', ok, why, c, sample=U(budget)[:140])
-    # the comparison against the budget: keep iff estimate <= budget
-    rets = [n for n in walk_own(f.node) if isinstance(n, ast.Return)]
+    _check_decision(ctx, repo, f, view, c, st, b)
+    _check_sizes(ctx, repo, f, view, c, st, b, (lp, rp, ln, rn))
+    _check_call_sites(ctx, repo, path)
     # ---------------------------------------------------------------- window passed by the estimator
     g = repo.fn(path, 'SuffixFilter._est_hamming_dist_lower_bound')
     gv = view_of(g)
@@ -165,8 +166,9 @@ def run(ctx):
               '(a rejection needs tokens[left-1] >= probe with left > 0, or tokens[right] < probe with right inside the '
               'list, or an empty window)' % (show_asg(w) if w else ''), p.node,
               sample='rejections imply the reference rejection conditions')
-    # after a non-rejecting window test the split position is the first token >= probe: every token smaller than
-    # the probe goes left (the all-smaller case must not be split by the in-window search)
+    _check_partition_slices(ctx, p)
+    _check_probe_exists(ctx, g, gv, l_n, r_n)
+    _check_recursion(ctx, repo, g, gv, pcalls, other)
     ctx.assume("the recursion of _est_hamming_dist_lower_bound (a valid lower bound of the suffixes' Hamming distance) "
                "is algorithmic and not decided")
 
@@ -253,3 +255,223 @@ def _strip_entry(c, l_n, r_n):
         if U(x[1]) not in [U(y[1]) for y in seen]:
             seen.append(x)
     return f_and(*seen) if seen else c
+
+
+def _check_decision(ctx, repo, f, view, call, st, b):
+    """the pair is dropped (True) only when the estimated lower bound exceeds the budget"""
+    ex = expander(view)
+    conds = Conds(f.node, ex)
+    est = ex(call, st)
+    bud = ex(b['hamming_dist_max'], st)
+    drop, odd = [], []
+    after = False
+    for n in conds.order:
+        if n is st:
+            after = True
+        if isinstance(n, ast.Return) and after and n is not st:
+            v = ex(n.value, n) if n.value is not None else ast.Constant(None)
+            if isinstance(v, ast.Constant) and v.value is True:
+                drop.append(conds.of(n))
+            elif isinstance(v, ast.Constant) and v.value is False:
+                pass
+            else:
+                # `return est > budget` and the like: dropped when the returned expression is true
+                from ..guards import f_and
+                drop.append(f_and(conds.of(n), to_formula(v)))
+    if not drop:
+        ctx.check('R-SUFFIX/decision', f, 'drop decision', False,
+                  'no return after the estimator call drops a pair: the suffix filter decides nothing', call)
+        return
+    ref = to_formula(ast.Compare(left=est, ops=[ast.Gt()], comparators=[bud]))
+    w = Universe(int_atoms=lambda a: True).implies(f_or(*drop), ref)
+    ctx.check('R-SUFFIX/decision', f, 'drop decision', w is None,
+              'after the estimator call a pair is dropped under `%s`; it may be dropped only when the lower bound '
+              'exceeds the budget (estimate > budget)%s' % (show(f_or(*drop))[:160], (' - e.g. when ' + show_asg(w)[:120]) if w else ''),
+              call, sample='dropped only if estimate > budget (%d dropping returns)' % len(drop))
+
+
+def _check_sizes(ctx, repo, f, view, call, st, b, names):
+    lp, rp, ln, rn = names
+    ok = True
+    why = ''
+    try:
+        norm = Norm()
+        for side, size, n_, p_, seq in (('left', 'l_suffix_num_tokens', ln, lp, 'l_suffix'), ('right', 'r_suffix_num_tokens', rn, rp, 'r_suffix')):
+            got = norm.visit(view.expand(b[size], st))
+            want = norm.visit(parse_expr('%s - %s' % (n_, p_)))
+            if got != want:
+                ok = False
+                why = 'the %s suffix size handed to the estimator is `%s`, not %s - %s' % (side, U(b[size])[:60], n_, p_)
+            sx = view.expand(b[seq], st)
+            pname = f.params[1] if side == 'left' else f.params[2]
+            if U(sx) != pname:
+                ok = False
+                why = 'the %s token list handed to the estimator is `%s`, not the %s suffix `%s`' % (side, U(sx)[:60], side, pname)
+    except Unsupported as e:
+        ok = False
+        why = 'suffix sizes not recognisable: %s' % e
+    ctx.check('R-SUFFIX/sizes', f, 'suffix sizes', ok, why, call, sample='(l_suffix, r_suffix, l - l_prefix, r - r_prefix)')
+
+
+def _check_call_sites(ctx, repo, path):
+    """every caller cuts each suffix at the prefix length it also passes, computed from the token count it passes"""
+    n = 0
+    for g in repo.all_funcs():
+        if g.module.relpath != path:
+            continue
+        gv = None
+        for c in repo.calls_in(g):
+            if call_name(c) != '_filter_suffix':
+                continue
+            r = repo.resolve_call(g, c)
+            if r is None:
+                raise AnalysisError('%s: _filter_suffix call not resolvable' % g.where)
+            gv = gv or view_of(g)
+            st = gv.stmt_of(c)
+            b = r[2]
+            n += 1
+            for side, seq, pre, cnt in (('left', 'l_suffix', 'l_prefix_num_tokens', 'l_num_tokens'),
+                                        ('right', 'r_suffix', 'r_prefix_num_tokens', 'r_num_tokens')):
+                sx, px, nx = gv.expand(b[seq], st), gv.expand(b[pre], st), gv.expand(b[cnt], st)
+                ok = isinstance(sx, ast.Subscript) and isinstance(sx.slice, ast.Slice) and sx.slice.upper is None \
+                    and sx.slice.step is None and sx.slice.lower is not None and U(sx.slice.lower) == U(px)
+                why = 'the %s suffix `%s` is not the token list cut at the prefix length `%s` that is passed along' % (side, U(sx)[:70], U(px)[:50])
+                if ok:
+                    ok = isinstance(px, ast.Call) and call_name(px) == 'get_prefix_length' and px.args and U(px.args[0]) == U(nx)
+                    why = 'the %s prefix length `%s` is not computed from the token count `%s` that is passed along' % (side, U(px)[:70], U(nx)[:40])
+                if ok:
+                    base = sx.value
+                    inner = base.args[0] if isinstance(base, ast.Call) and call_name(base) == 'order_using_token_ordering' and base.args else None
+                    ok = isinstance(nx, ast.Call) and call_name(nx) == 'len' and len(nx.args) == 1 \
+                        and (U(nx.args[0]) == U(base) or (inner is not None and U(nx.args[0]) == U(inner)))
+                    why = 'the %s token count `%s` is not the length of the token list `%s` whose suffix is passed' % (side, U(nx)[:50], U(base)[:60])
+                ctx.check('R-SUFFIX/call', g, '%s suffix' % side, ok, why, c, sample='%s[%s:]' % (side, U(b[pre])))
+    ctx.floor('R-SUFFIX/call', n, 2, '_filter_suffix call sites')
+
+
+def _slice_bounds(e, seq):
+    """e == seq[a:b] or [] -> (a, b) as expressions (None = open end); else None"""
+    if isinstance(e, ast.List) and not e.elts:
+        return 'empty'
+    if isinstance(e, ast.Subscript) and U(e.value) == seq and isinstance(e.slice, ast.Slice) and e.slice.step is None:
+        return e.slice.lower, e.slice.upper
+    return None
+
+
+def _check_partition_slices(ctx, p):
+    """a successful partition returns (tokens[0:pos], tokens[pos+1-d:], 1, d): everything before the split position on
+    the left, everything from it on the right, the probe token itself skipped exactly when it was found (d = 0)"""
+    from ..paths import enumerate_paths, symexec, _sub
+    view = view_of(p)
+    cfg = view.cfg
+    seq, probe = p.params[1], p.params[2]
+    ends = [n.id for n in cfg.nodes if n.kind == 'return']
+    n_ok = 0
+    bad = None
+    for path in enumerate_paths(cfg, cfg.entry.id, set(ends), stop=set(ends), limit=4000):
+        last = path[-1].node
+        ps = symexec(path)
+        v = _sub(last.ast.value, ps.env) if last.ast.value is not None else None
+        if not (isinstance(v, ast.Tuple) and len(v.elts) == 4):
+            bad = bad or (last.ast, 'a return of _partition is not a 4-tuple')
+            continue
+        L, R, flag, d = v.elts
+        if isinstance(flag, ast.Constant) and flag.value == 0:
+            continue
+        n_ok += 1
+        if not (isinstance(d, ast.Constant) and d.value in (0, 1)):
+            bad = bad or (last.ast, 'the mismatch count returned is `%s`, not 0 or 1' % U(d)[:40])
+            continue
+        lb, rb = _slice_bounds(L, seq), _slice_bounds(R, seq)
+        if lb is None or lb == 'empty' or rb is None:
+            bad = bad or (last.ast, 'the parts returned are `%s` / `%s`, not slices of the token list' % (U(L)[:40], U(R)[:40]))
+            continue
+        try:
+            norm = Norm()
+            n_len = norm.visit(parse_expr('len(%s)' % seq))
+            a = norm.visit(lb[0]) if lb[0] is not None else norm.visit(ast.Constant(0))
+            b_ = norm.visit(lb[1]) if lb[1] is not None else n_len
+            if rb == 'empty':
+                c_, e_ = n_len, n_len
+            else:
+                c_ = norm.visit(rb[0]) if rb[0] is not None else norm.visit(ast.Constant(0))
+                e_ = norm.visit(rb[1]) if rb[1] is not None else n_len
+            okp = a.as_const() == 0 and e_ == n_len and c_.diff_const(b_) == 1 - d.value
+        except Unsupported:
+            okp = False
+        if not okp:
+            bad = bad or (last.ast, 'a successful partition returns `%s` and `%s` with mismatch %s: tokens are lost or '
+                                    'duplicated between the parts (expected tokens[0:pos], tokens[pos+1-d:])' % (U(L)[:50], U(R)[:50], d.value))
+            continue
+        if d.value == 0:
+            # the probe token is skipped only where it was found
+            found = any(pol and isinstance(e, ast.Compare) and len(e.ops) == 1 and isinstance(e.ops[0], ast.Eq)
+                        and probe in (U(e.left), U(e.comparators[0])) and ('%s[' % seq) in U(e) for e, pol, _ in ps.conds)
+            if not found:
+                bad = bad or (last.ast, 'a token is skipped (mismatch 0) on a path that has not found the probe token at the split position')
+    ctx.check('R-SUFFIX/partition', p, 'returned parts', bad is None and n_ok >= 2, bad[1] if bad else 'fewer than two successful returns',
+              bad[0] if bad else p.node, sample='%d successful return paths: (tokens[0:pos], tokens[pos+1-d:], 1, d)' % n_ok)
+
+
+def _check_probe_exists(ctx, g, gv, l_n, r_n):
+    """the probe token is read from the right suffix: every path to that read has established that it is non-empty"""
+    reads = [n for n in walk_own(g.node) if isinstance(n, ast.Subscript) and U(n.value) == g.params[2]
+             and not isinstance(n.slice, ast.Slice)]
+    conds = Conds(g.node, None)
+    nn = 0
+    for rd in reads:
+        st = gv.stmt_of(rd)
+        c = conds.of(st)
+        nn += 1
+        w = Universe(int_atoms=lambda a: True).implies(c, to_formula(parse_expr('%s != 0' % r_n)))
+        ctx.check('R-SUFFIX/probe', g, 'read %s' % U(rd)[:30], w is None,
+                  '`%s` is read although the right suffix may be empty (path condition `%s`): the early return must cover '
+                  'an empty right suffix' % (U(rd)[:40], show(c)[:100]), rd, sample='guarded by %s != 0' % r_n)
+    ctx.floor('R-SUFFIX/probe', nn, 1, 'reads of the right suffix')
+
+
+def _check_recursion(ctx, repo, g, gv, pcalls, windowed):
+    """the estimator recurses on (left part of l, left part of r) and (right part of l, right part of r), each with the
+    sizes of exactly those parts"""
+    parts = {}
+    for c in pcalls:
+        st = gv.stmt_of(c)
+        if not (isinstance(st, ast.Assign) and isinstance(st.targets[0], ast.Tuple) and len(st.targets[0].elts) == 4
+                and all(isinstance(x, ast.Name) for x in st.targets[0].elts[:2])):
+            raise AnalysisError('%s: _partition result is not unpacked into (left, right, flag, diff)' % g.where)
+        side = 'l' if c is windowed else 'r'
+        src = U(c.args[0]) if c.args else '?'
+        want_src = g.params[1] if side == 'l' else g.params[2]
+        ctx.check('R-SUFFIX/recursion', g, 'partition of %s' % want_src, src == want_src,
+                  'the %s _partition call splits `%s`, expected `%s`' % ('windowed' if side == 'l' else 'probe-side', src, want_src), c,
+                  sample='%s -> (%s, %s)' % (src, st.targets[0].elts[0].id, st.targets[0].elts[1].id))
+        parts[side] = (st.targets[0].elts[0].id, st.targets[0].elts[1].id)
+    if set(parts) != {'l', 'r'}:
+        raise AnalysisError('%s: the two partitions are not recognisable' % g.where)
+    rec = [c for c in repo.calls_in(g) if call_name(c) == g.name]
+    seen = set()
+    for c in rec:
+        r = repo.resolve_call(g, c)
+        if r is None:
+            raise AnalysisError('%s: recursive call not resolvable' % g.where)
+        b = r[2]
+        st = gv.stmt_of(c)
+        la, ra = U(b[g.params[1]]), U(b[g.params[2]])
+        which = None
+        for i, nm in ((0, 'left'), (1, 'right')):
+            if la == parts['l'][i] and ra == parts['r'][i]:
+                which = nm
+        ok = which is not None
+        why = 'the recursion compares `%s` with `%s`; it must pair the left parts (%s, %s) or the right parts (%s, %s)' % (
+            la, ra, parts['l'][0], parts['r'][0], parts['l'][1], parts['r'][1])
+        if ok:
+            seen.add(which)
+            for prm, arg in ((g.params[3], la), (g.params[4], ra)):
+                sx = gv.expand(b[prm], st)
+                if U(sx) != U(gv.expand(parse_expr('len(%s)' % arg), st)):
+                    ok = False
+                    why = 'the size passed for `%s` is `%s`, not len(%s)' % (arg, U(sx)[:40], arg)
+        ctx.check('R-SUFFIX/recursion', g, 'recursive call %s' % (which or '?'), ok, why, c, sample='(%s, %s)' % (la, ra))
+    ctx.check('R-SUFFIX/recursion', g, 'both parts', seen == {'left', 'right'} or not rec,
+              'the recursion covers only the %s parts' % sorted(seen), g.node, nontrivial=False)
+    ctx.floor('R-SUFFIX/recursion', len(rec), 2, 'recursive estimator calls')
